@@ -36,7 +36,11 @@ type echoHandler struct {
 }
 
 func snapshotBytes(seen int, restored []byte, pad int) []byte {
-	b := []byte(fmt.Sprintf("seen=%d|restored=%x|", seen, restored))
+	rs := "nil"
+	if restored != nil {
+		rs = fmt.Sprintf("%x", restored)
+	}
+	b := []byte(fmt.Sprintf("seen=%d|restored=%s|", seen, rs))
 	for i := 0; i < pad; i++ {
 		// every byte value occurs, including ones that look like varint continuation bytes
 		b = append(b, byte(i*37+seen))
@@ -84,7 +88,7 @@ func (h *echoHandler) Restore(r *agent.RestoreRequest) (*agent.RestoreResponse, 
 	h.mu.Lock()
 	h.restores++
 	h.nresp++
-	h.restored = append([]byte(nil), r.Snapshot...)
+	h.restored = append([]byte{}, r.Snapshot...)
 	cb := h.onReq
 	h.mu.Unlock()
 	if cb != nil {
